@@ -4,10 +4,10 @@ set -u
 WT="$1"; ID="$2"; PROP="$3"
 cd "$WT" || exit 9
 git checkout -q -- mesonbuild
-/venv/bin/python _seed/demo.py > /tmp/demo0.out 2>&1; D0=$?
+/venv/bin/python _seed/demo.py > /tmp/demo0.$ID.out 2>&1; D0=$?
 git apply _seed/patch.diff || { echo "patch does not apply"; exit 9; }
 T=$(/venv/bin/python -m pytest -q -p no:cacheprovider --timeout=900 --continue-on-collection-errors 2>&1 | tail -1)
-/venv/bin/python _seed/demo.py > /tmp/demo1.out 2>&1; D1=$?
+/venv/bin/python _seed/demo.py > /tmp/demo1.$ID.out 2>&1; D1=$?
 git checkout -q -- mesonbuild
 find . -name __pycache__ -prune -exec rm -rf {} + 2>/dev/null
 echo "demo(original)=$D0 demo(changed)=$D1 tests(changed)=$T"
@@ -17,6 +17,6 @@ cp _seed/patch.diff _seed/demo.py /verif/seeded/$ID/
 cat > /verif/seeded/$ID/confirm.txt <<EOT
 confirmed in scratch worktree $WT:
 demo on original code: exit $D0
-demo on changed code: exit $D1 ($(tail -1 /tmp/demo1.out | cut -c1-200))
+demo on changed code: exit $D1 ($(tail -1 /tmp/demo1.$ID.out | cut -c1-200))
 pinned test suite with the change: $T
 EOT
